@@ -38,7 +38,7 @@ func init() {
 		Level:     "exploration",
 		Technique: "conservation-law runtime monitor: exported gauges and Num*() getters vs a recount of the head's series after every step of generated histories",
 		LevelText: "Generated single-threaded histories on a real tsdb.DB under the C01 option matrix (half of them with the memory snapshot on shutdown): append transactions of floats / native histograms / staleness markers (also float markers on histogram series and the reverse) through Appender and AppenderV2, commit and rollback, appenders held open across other steps, Delete, Compact, CompactHead, CompactOOOHead, CompactStaleHead, CompactSelectedSeries on random ref subsets, ForceHeadMMap, CleanTombstones, clean restarts from the WAL or from a chunk snapshot and restarts with a damaged chunk snapshot. After every step prometheus_tsdb_head_series, _stale_series, _native_histogram_series, _native_histogram_buckets, _chunks and _active_appenders gathered from the DB's registry and Head.NumSeries/NumStaleSeries/NumNativeHistogramSeries/NumNativeHistogramBuckets must equal Head.VerifRecount() (series in the stripes; series whose latest in-order sample is a staleness marker; series whose latest in-order sample is a histogram and the sum of their bucket entries; in-order head chunks + m-mapped + out-of-order m-mapped + out-of-order head chunks) and the number of appenders the harness holds open. Held on the observed histories only.",
-		LevelNote: "Trusted: VerifRecount (tsdb/verif_export.go, reads memSeries.last*Value / chunk lists under the locks the head uses) as the definition of 'recomputed from the actual contents'. All steps are sequential; recounts are taken at quiescent points only, so transient values inside an operation are not observed. Held appenders are committed or rolled back before compactions and restarts (an open appender blocks head truncation). After a known chunks-gauge deficit has been reported the check continues relative to it.",
+		LevelNote: "Trusted: VerifRecount (tsdb/verif_export.go, reads memSeries.last*Value / chunk lists under the locks the head uses) as the definition of 'recomputed from the actual contents'. All steps are sequential; the verdict is taken at quiescent points only (recounts at lock-free hook points inside compactions are used solely to attribute a disagreement found at the end of the step). Held appenders are committed or rolled back before compactions and restarts (an open appender blocks head truncation). Genuine gauge defects found on the unchanged tree are reported under narrow kinds whose predicates use only outside observations (bucket growth of the caller's histogram objects, samples accepted vs appended, recounts before/after, decoded WAL/WBL/head chunk files, snapshot and corruption counters); after such a report the check continues relative to the reported offset. After a reopen several replay defects can overlap: the chunks gauge must then lie inside the bounds their observable preconditions allow together (weaker than equality). On a Head built over colliding series refs (WAL with one ref for two label sets / re-created behind its eviction tombstone, live ref collision) or after the m-mapped chunk files were discarded during open, a walk over the by-ref map is no longer the head's contents: until the next reopen only the appender gauge is compared (counted).",
 		DesignRef: "DESIGN.md §5 C52",
 		Rule:      "case = one generated history of 25–120 steps; non-trivial iff ≥1 commit succeeded, ≥1 step that can remove series or chunks (compaction, eviction, restart) ran, and the gauges were compared at ≥1 point with series>0 and chunks>0; distinct by (config, step list) hash",
 		Cases: func(variant string, tier core.Tier) int {
@@ -190,8 +190,13 @@ type state struct {
 	ctl         *sched.Controller
 	lastRefs    map[uint64]string // ref → labels at the previous check (same Head)
 	sawClash    bool
-	mid         []midObs // observations at hook points during the current step
-	watch       bool
+	// tainted: the current Head was built over colliding refs / discarded chunk files, or a live
+	// ref collision was seen: series may live on in the hash index only, a walk over the by-ref
+	// map is no longer "the contents"; until the next reopen only the appender gauge is compared
+	tainted       bool
+	taintedChecks int
+	mid           []midObs // observations at hook points during the current step
+	watch         bool
 
 	checks, checksNonEmpty                   int
 	maxStale, maxHist, maxHeld               int
@@ -314,6 +319,7 @@ func run(c *core.Case) {
 	c.Count("steps", int64(nops))
 	c.Count("gauge_checks", int64(s.checks))
 	c.Count("gauge_checks_nonempty_head", int64(s.checksNonEmpty))
+	c.Count("gauge_checks_skipped_on_heads_with_colliding_refs", int64(s.taintedChecks))
 	c.Count("commits", int64(e.Commits))
 	c.Count("rollbacks", int64(e.Rollbacks))
 	c.Count("restarts", int64(e.Restarts))
@@ -747,6 +753,9 @@ func (s *state) check(where string, ctx stepCtx) bool {
 	if ctx.newHead && (ctx.refClashes > 0 || ctx.refReintro > 0) {
 		s.sawClash = true
 	}
+	if ctx.newHead {
+		s.tainted = false
+	}
 
 	gotChunks := g("prometheus_tsdb_head_chunks")
 	if gotChunks != math.Trunc(gotChunks) {
@@ -764,6 +773,7 @@ func (s *state) check(where string, ctx stepCtx) bool {
 		offSt, offB, offC := int(h.NumStaleSeries())-rc.StaleSeries, rc.HistogramBuckets-gotBuckets, int(gotChunks)-totalChunks
 		s.biasSeries, s.biasHistSer, s.biasStale, s.biasBuckets, s.biasChunks = offS, offH, offSt, offB, offC
 		s.knownf(kindLiveRefClash, "config {%s}\nafter %s: a series ref that existed before the step now maps to other labels (%s); gauge − recount: series %+d, histogram series %+d, stale series %+d, histogram buckets %+d, chunks %+d%s", s.cfg, where, liveClash, offS, offH, offSt, -offB, offC, suffix())
+		s.tainted = true
 	}
 	if ctx.newHead && (ctx.refClashes > 0 || ctx.refReintro > 0 || mmapCorrupt > 0) {
 		offS, offH := int(h.NumSeries())-rc.Series, int(h.NumNativeHistogramSeries())-rc.HistogramSeries
